@@ -74,6 +74,23 @@ func newDirectRig(c Case) *rig {
 	var connA, connB net.Conn = r.aS, r.bS
 	var links []interface{ close() }
 	r.setupErr = nil
+	if c.RealEnd == "A" || c.RealEnd == "B" {
+		far := r.aS.BufConn
+		if c.RealEnd == "B" {
+			far = r.bS.BufConn
+		}
+		l, sc, err := dialReal(c.RealProto, far)
+		if err != nil {
+			r.setupErr = harnessFail("real "+c.RealProto+" end", err)
+		} else {
+			links = append(links, l)
+			if c.RealEnd == "A" {
+				connA = sc
+			} else {
+				connB = sc
+			}
+		}
+	}
 	if c.AdapterWS == "A" || c.AdapterWS == "B" {
 		far := r.aS.BufConn
 		if c.AdapterWS == "B" {
